@@ -202,7 +202,14 @@ def oracleExpect (c : CaseIn) (chunks : List Bytes) (rkv : KV) : Option String :
     | some want =>
       let g := ",".intercalate got
       if g = want then none else some (c.camp ++ ":" ++ key ++ ":got=" ++ g ++ ":want=" ++ want)
+  let xevs := ((get rkv "ev").splitOn ";").filter (·.startsWith "X:")
+  let chkEv : Option String := match c.kv.lookup "xev" with
+    | none => none
+    | some want =>
+      let g := ";".intercalate xevs
+      if "=" ++ g = want then none else some (c.camp ++ ":xev:got=" ++ g ++ ":want" ++ want)
   (chk "xp" afterZ).orElse fun _ =>
+  chkEv.orElse fun _ =>
   (chk "xpre" notes).orElse fun _ =>
   match c.kv.lookup "xend" with
   | none => none
